@@ -381,6 +381,12 @@ theorem readInfo_wf (cfg : Cfg) (hI : cfg.InflateOk) (hC : cfg.CrcOk) {t : TCfg}
     simp only [hw', hc', hdp', hh', hck, hls]
     rw [if_neg (by omega), ← hr1', hru]
     simp only [hi2]
+    have hfit : sizeFits (t.outColorDepth i r2.flags) h.width h.height = true := by
+      rw [hse2.flags, hfl1', ht.out, c3, c4]
+      unfold sizeFits
+      simp only [hck, hls, decide_eq_true_eq]
+      omega
+    rw [if_pos hfit]
     subst hN
     rfl
   · refine ⟨⟨evs, ⟨?_, hi2, ?_, Or.inl ⟨?_, hev, rfl⟩, hN1⟩, hdata⟩, ?_, hsub2, hbpp2, hub2, ?_⟩
